@@ -51,6 +51,7 @@ def run(ctx: Ctx) -> None:
     lookahead(ctx, py)
     consumers(ctx, py)
     cached_decoder(ctx, py)
+    history(ctx, py)
 
 
 def tables(ctx: Ctx, py: PyProgram) -> None:
@@ -221,6 +222,22 @@ def consumers(ctx: Ctx, py: PyProgram) -> None:
         ctx.violation("C01.4/fallback", key_of(isa.EMU_PY, "Emulator.decode_instruction", "fallback"), "no placeholder instruction when decode returns None", f"{isa.EMU_PY}:{fn.lineno}")
     ctx.instance("C01.4/consumers", "3 hooks + emulator fetch: same decoder call, same handled exception set, fallback present", n, 7)
     ctx.sample({"hook_handlers": {k: sorted(v) for k, v in sets.items()}, "emulator_handlers": sorted(handled)})
+
+
+def history(ctx: Ctx, py: PyProgram) -> None:
+    """No consumer remembers results across calls under a key that omits an input (sa/memo.py)."""
+    from ..memo import memo_findings
+    scope = [(isa.ARCH_PY, "SC62015.get_instruction_info", ("data", "addr"), False), (isa.ARCH_PY, "SC62015.get_instruction_text", ("data", "addr"), False),
+             (isa.ARCH_PY, "SC62015.get_instruction_low_level_il", ("data", "addr"), False), (isa.EMU_PY, "Emulator.decode_instruction", ("address",), True),
+             (isa.OPCODES_PY, "decode", ("decoder", "addr", "opcodes"), False), (isa.OPCODES_PY, "create_instruction", ("decoder", "opcodes"), False),
+             (isa.OPCODES_PY, "iter_decode", ("decoder", "addr", "opcodes"), False), (isa.OPCODES_PY, "fusion", ("instr_iter",), False)]
+    n = 0
+    for rel, q, inputs, memdep in scope:
+        fn = py.func(rel, q)
+        n += 1
+        for ln, what in memo_findings(py.module(rel), fn, inputs, memdep):
+            ctx.violation("C01.2/memo", key_of(rel, q, "result remembered across calls"), what + " - decoding must not depend on what was decoded before", f"{rel}:{ln}")
+    ctx.instance("C01.2/memo", "decode consumers free of memos keyed by less than their inputs", n, 8)
 
 
 def cached_decoder(ctx: Ctx, py: PyProgram) -> None:
